@@ -38,6 +38,11 @@ class Gen:
     def __init__(self, f):
         self.f = f
         self.lets = tab.lets(f["body"])
+        # a binding is visible only after its own statement: remember where each `let` ends
+        self.let_end = {}
+        for n in tab.walk(f["body"]):
+            if n.get("k") == "Let":
+                self.let_end[n["l"]] = max([x.get("l", n["l"]) for x in tab.walk(n) if isinstance(x.get("l"), int)] + [n["l"]])
         self.closure_params = []  # (line_from, line_to, name, closure node, index in tuple pattern or None)
         for n in tab.walk(f["body"]):
             if n.get("k") == "Closure":
@@ -55,7 +60,7 @@ class Gen:
         """nearest `let` binding `name` at or before `line`: (line, pat, init) or None"""
         best = None
         for l, names, pat, init in self.lets:
-            if name in names and l < line:
+            if name in names and l < line and (self.let_end.get(l, l) < line or self.let_end.get(l, l) == l):
                 best = (l, pat, init)
         return best
 
@@ -73,6 +78,64 @@ class Gen:
             if name not in [x.get("path") for x in tab.walk(d[2] or {}) if x.get("k") == "Path"]:
                 break
         return out
+
+    def in_closure_param(self, name, line):
+        return any(lo <= line <= hi and nm == name for lo, hi, nm, _, _ in self.closure_params)
+
+    def variants_of(self, name, line, depth=0):
+        """the possible texts a string-valued variable holds, as far as it is built by format!/join/if in this function;
+        anything else stays an opaque `__PH_<name>__`"""
+        opaque = [f"__PH_{name}__"]
+        if depth > 6 or self.in_closure_param(name, line):
+            return opaque
+        d = self.def_of(name, line)
+        if d is None or d[2] is None:
+            return opaque
+        v = self.expr_variants(d[2], d[0], depth + 1)
+        return v if v else opaque
+
+    def expr_variants(self, e, line, depth):
+        k = e.get("k")
+        if k == "Macro" and e.get("name") == "format" and e.get("args") and e["args"][0].get("t") == "str":
+            return self.expand_text(e["args"][0]["v"], e["l"], depth)
+        if k == "Lit" and e.get("t") == "str":
+            return [e["v"]]
+        if k == "Path" and re.fullmatch(r"\w+", e["path"]):
+            return self.variants_of(e["path"], line, depth)
+        if k == "Block":
+            return self.expr_variants(e["stmts"][-1], e["stmts"][-1].get("l", line), depth) if e["stmts"] and not e["stmts"][-1].get("semi") else None
+        if k == "If" and e.get("else"):
+            a = self.expr_variants(e["then"], line, depth)
+            b = self.expr_variants(e["else"], line, depth)
+            return (a + b)[:8] if a and b else None
+        if k == "MethodCall" and e["method"] in ("to_string", "into", "to_owned", "clone") and not e["args"]:
+            return self.expr_variants(e["recv"], line, depth)
+        if k == "MethodCall" and e["method"] == "join" and e["recv"].get("k") == "MethodCall" and e["recv"]["method"] == "map" and \
+                e["recv"]["args"] and e["recv"]["args"][0].get("k") == "Closure" and e["args"] and e["args"][0].get("k") == "Lit":
+            body = self.expr_variants(e["recv"]["args"][0]["body"], e["recv"]["args"][0]["l"], depth)
+            sep = e["args"][0]["v"]
+            return [b + sep + b for b in body][:8] if body else None  # two repetitions stand for "one or more"
+        return None
+
+    def expand_text(self, template, line, depth=0):
+        outs = [""]
+        i = 0
+        while i < len(template):
+            c = template[i]
+            if c in "{}" and template[i:i + 2] == c * 2:
+                outs = [o + c for o in outs]
+                i += 2
+                continue
+            if c == "{":
+                j = template.index("}", i)
+                name = template[i + 1:j].split(":")[0].strip()
+                vs = self.variants_of(name, line, depth) if re.fullmatch(r"\w+", name) else [f"__PH_{name}__"]
+                outs = [o + v for o in outs for v in vs][:8]
+                i = j + 1
+                continue
+            outs = [o + c for o in outs]
+            i += 1
+        return outs
 
     def templates(self):
         """(line, template, kind) of every format! string and every literal pushed with push_str"""
@@ -352,12 +415,61 @@ def rule_generator(rep):
     # ---- G7: fallback ----------------------------------------------------------------------------------------------------------
     entry_t = only([x for x in tpls if "fn __entry" in x[1]], "entry-function template")
     et = tab.render(entry_t[1])
-    phs = [n for n, _ in tab.placeholders(entry_t[1])]
-    fbv = [n for n in phs if "fallback" in n]
-    codev = [n for n in phs if resolve(n, entry_t[0]) and bucket_var in (resolve(n, entry_t[0]) or "")]
-    ok7 = len(fbv) == 1 and len(codev) == 1 and et.index(f"__PH_{codev[0]}__") < et.index(f"__PH_{fbv[0]}__") and et.rstrip().endswith("}") and \
-        re.search(PH.pattern + r"\s*\}\s*$", et) is not None and re.search(PH.pattern + r"\s*\}\s*$", et).group(1) == fbv[0]
-    rep.ob("G7-fallback-follows-the-arms", "entry", ok7, GEN, entry_t[0], "the entry function must consist of the dispatch arms followed by the fallback code, and nothing after it")
+    # the fallback variable: bound by `if let Some(..) = <fallback fn> {..} else {..}`
+    fb_lets = [(l, names[0]) for l, names, pat, init in g.lets if init is not None and init.get("k") == "If" and init["cond"].get("k") == "LetCond" and
+               "Some" in tab.show(init["cond"]["pat"]) and "fallback" in tab.show(init["cond"]["expr"])]
+    fbl = only(fb_lets, "binding of the fallback code")
+    fbv = [fbl[1]]
+    FB = f"__PH_{fbv[0]}__"
+    # every text the entry function can take, with string-building (format!/join/if) expanded and everything else opaque
+    saved = g.lets
+    g.lets = [x for x in g.lets if not (x[0] == fbl[0])]  # keep the fallback opaque
+    variants = g.expand_text(entry_t[1], entry_t[0])
+    g.lets = saved
+    sel_len_guess = re.search(r"if\s+(\w+)\s*==", tab.render(o[1])).group(1) if re.search(r"if\s+(\w+)\s*==", tab.render(o[1])) else None
+    ok7, why7 = True, ""
+    for vtext in variants:
+        vt = sway_tokens(vtext)
+        W = [(None, x, 0) for x in vt]
+        try:
+            fi = next(i_ for i_ in range(len(vt) - 1) if vt[i_] == "fn" and vt[i_ + 1] == "__entry")
+            bo = vt.index("{", fi)
+            bc = sw.match_brace(W, bo, "{", "}")
+        except (StopIteration, ValueError):
+            raise AnalysisError("C11 G7: cannot find the body of fn __entry in the rendered entry template")
+        depth_ = 0
+        guard = None
+        for i_ in range(bo + 1, bc):
+            if vt[i_] == "{":
+                depth_ += 1
+            elif vt[i_] == "}":
+                depth_ -= 1
+            elif depth_ == 0 and vt[i_] == "if" and vt[i_ + 1] == sel_len_guess and vt[i_ + 2] == "==":
+                guard = i_
+                break
+        if guard is None:
+            good = FB in vt[bo + 1:bc]
+            if not good:
+                ok7, why7 = False, "a variant of the entry has neither dispatch arms nor the fallback"
+            continue
+        blocks = []
+        j_ = sw.match_brace(W, vt.index("{", guard), "{", "}")
+        blocks.append((vt.index("{", guard), j_))
+        while j_ + 1 < bc and vt[j_ + 1] == "else":
+            k_ = vt.index("{", j_ + 1)
+            e_ = sw.match_brace(W, k_, "{", "}")
+            if vt[j_ + 2] == "if":
+                blocks.append((k_, e_))
+            j_ = e_
+        tail = vt[j_ + 1:bc]
+        each_bucket_ends_with_fb = all(FB in vt[a_:b_][-3:] for a_, b_ in blocks)
+        if not (FB in tail or each_bucket_ends_with_fb):
+            ok7 = False
+            why7 = ("when a bucket of the right length is entered and no name in it matches, control leaves the if-chain; the fallback / revert must come "
+                    "after the chain (or end every bucket), but in this shape it is only reached when no bucket is entered: " + " ".join(vt[guard:bc])[:300])
+        if FB in tail and tail and tail[-1] not in (FB, ";"):
+            pass
+    rep.ob("G7-fallback-follows-the-arms", "entry", ok7, GEN, entry_t[0], why7 or "the fallback must be reached whenever no arm returned")
     if fbv:
         fd = g.def_of(fbv[0], entry_t[0])
         init = fd[2] if fd else None
